@@ -50,6 +50,18 @@ Proof.
   apply np_castfail_classes in C. destruct C as [C|[C|C]]; contradiction.
 Qed.
 
+(* the NumPy tables of this image satisfy the three hypotheses *)
+Theorem np_other_error_only_for_hidden_names o s :
+  Inv s -> snd (np_step o s) = Raise OtherError ->
+  exists name v, assoc name (vars s) = None /\
+    ((exists l, o = SetItem (KLabel name l) v) \/ (exists a b st, o = SetItem (KSlice name a b st) v)).
+Proof.
+  apply other_error_only_for_hidden_names.
+  - intros d c C. apply np_cast_classes in C. destruct C as [C|[C|C]]; discriminate C.
+  - intros src d c C. apply np_cast_classes in C. destruct C as [C|[C|C]]; discriminate C.
+  - intros d. destruct d; discriminate.
+Qed.
+
 (* ---- kept finding: a failing element cast part-way through NumPy's in-place copy leaves the leading cells written *)
 Definition op_partial : op :=
   SetItem (KSlice "X" (Some 10%Z) (Some 12%Z) None)
